@@ -27,7 +27,7 @@ def run(ck):
                    "handed to the model (eigh contract S^T S = 1, S^-1 A S diagonal ascending is re-checked numerically)",
                    "hand model QV/Model/C04.lean validated on generated programs only; model inverts S exactly in rationals, the code with numpy.linalg.inv",
                    "4-index tensors / superoperators are not in the executable model (oracle only)"]
-    ck.prove(PROPS, extra_modules=["QV.Drive.C04"])
+    ck.prove(PROPS, extra_modules=["QV.Drive.C04"], also=["QV.Props.C04Labels"])
     lines, impl, kinds = [], [], []
 
     def emit(l, o, k="exact"):
@@ -191,6 +191,13 @@ def run(ck):
                     {"dump": end})
             m.basis_stack[:] = [0]; m.basis_transformations[:] = [1]; m.basis_registered.clear()
             m._in_eigenbasis_of_context = False; m.current_basis_operator = None
+        stale = [i for i in sorted(objs) if objs[i].get_current_basis() not in m.basis_stack]
+        if stale:
+            ck.fail("restore:label", "after all contexts were left an object still carries the label of a basis that is no longer on the stack "
+                    "(protected objects included: their values stay, their label follows the stack)",
+                    {"dump": end, "objects": stale, "classes": [type(objs[i]).__name__ for i in stale]})
+            for i in stale:
+                objs[i].set_current_basis(0)
         for i in sorted(objs):
             emit("raw %d" % i, mat(objs[i]._data), "num")
             if i in orig and i not in written:
